@@ -1891,17 +1891,25 @@ mod c10_precision {
     fn c10_hmc_run_progress_f64_backend() {
         type B = Autodiff<NdArray<f64>>;
         let target = DiffableGaussian2D::new([0.0f64, 1.0], [[4.0, 2.0], [2.0, 3.0]]);
-        let mut s = HMC::<f64, B, _>::new(target, vec![vec![0.0f64, 0.0], vec![1.0, -1.0]], 0.1, 3).set_seed(1);
-        let (sample, _stats) = s.run_progress(6, 2).unwrap();
+        let mk = || HMC::<f64, B, _>::new(target.clone(), vec![vec![0.0f64, 0.0], vec![1.0, -1.0]], 0.1, 3).set_seed(1);
+        let (sample, _stats) = mk().run_progress(6, 2).unwrap();
         assert_eq!(sample.dims(), [2, 6, 2]);
+        // exactly the draws of run(), in the backend's precision
+        assert_eq!(sample.to_data().to_vec::<f64>().unwrap(), mk().run(6, 2).to_data().to_vec::<f64>().unwrap());
     }
     #[test]
     fn c10_nuts_run_progress_f64_backend() {
         type B = Autodiff<NdArray<f64>>;
         let target = DiffableGaussian2D::new([0.0f64, 1.0], [[4.0, 2.0], [2.0, 3.0]]);
-        let mut s = NUTS::<f64, B, _>::new(target, vec![vec![0.0f64, 0.0], vec![1.0, -1.0]], 0.8).set_seed(1);
-        let (sample, _stats) = s.run_progress(6, 2).unwrap();
+        let mk = || NUTS::<f64, B, _>::new(target.clone(), vec![vec![0.0f64, 0.0], vec![1.0, -1.0]], 0.8).set_seed(1);
+        let (sample, _stats) = mk().run_progress(6, 2).unwrap();
         assert_eq!(sample.dims(), [2, 6, 2]);
+        // run's trajectory shifted by one draw, in the backend's precision
+        let a = mk().run(7, 2).to_data().to_vec::<f64>().unwrap(); // [2, 7, 2]
+        let b = sample.to_data().to_vec::<f64>().unwrap(); // [2, 6, 2]
+        for c in 0..2 {
+            assert_eq!(a[c * 14 + 2..(c + 1) * 14], b[c * 12..(c + 1) * 12], "chain {c}");
+        }
     }
     /// C10: the sampler's scalar type T and the backend's float element type are independent parameters
     /// (element types {f32,f64} x backends {NdArray<f32>, NdArray<f64>}); progress mode must work for all four.
